@@ -141,3 +141,39 @@ extern "C" int backpressure()
   vf_reach("end");
   return 0;
 }
+
+// ------------------------------------------------------------------------------------------------ 4. growing, idling and shrinking workers
+// Three blocking jobs force the pool to its maximum of three workers; afterwards single jobs arrive after idle periods
+// longer than the retirement threshold (the model clock is advanced explicitly), so run() retires workers. Every job must
+// still be executed (observed through a completion signal; a job left in the queue is a deadlock of the harness).
+#ifndef VF_ROUNDS
+#define VF_ROUNDS 4
+#endif
+static Signal* g_gate; static Signal* g_jobDone; static volatile uint32 g_shrinkRan[3 + VF_ROUNDS];
+static void gatedJob(void* arg) { g_gate->wait(); Atomic::increment(g_shrinkRan[(usize)arg]); }
+static void signalJob(void* arg) { Atomic::increment(g_shrinkRan[(usize)arg]); g_jobDone->set(); }
+extern "C" int shrink()
+{
+  {
+    Signal gate, jobDone; g_gate = &gate; g_jobDone = &jobDone;
+    for(unsigned i = 0; i < 3 + VF_ROUNDS; ++i) g_shrinkRan[i] = 0;
+    Pool* pool = new Pool(0, 3, 8);               // lives "until process exit" like the shared pool (destruction: see backpressure)
+    for(unsigned i = 0; i < 3; ++i) pool->run(gatedJob, (void*)(usize)i);
+    vf_assert(pool->_threadCount == 3, "three outstanding calls: the pool grows to its maximum");
+    gate.set();
+    while(pool->_processedJobs < 3) Thread::yield();
+    for(unsigned r = 0; r < VF_ROUNDS; ++r)
+    {
+      vf_clock_advance_ms(3000);                  // idle for longer than the retirement threshold
+      pool->run(signalJob, (void*)(usize)(3 + r));
+      jobDone.wait();                             // every started call is executed, however many workers were retired
+      jobDone.reset();
+      vf_assert(g_shrinkRan[3 + r] == 1, "the call was executed exactly once");
+      while(pool->_processedJobs < 4 + r) Thread::yield();
+      vf_assert(pool->_threadCount <= 3, "the pool never counts more workers than its maximum");
+    }
+    for(unsigned i = 0; i < 3 + VF_ROUNDS; ++i) vf_assert(g_shrinkRan[i] == 1, "every started call ran exactly once");
+  }
+  vf_reach("end");
+  return 0;
+}
